@@ -3473,6 +3473,11 @@ func (v *binaryExprVisitor) checkAndPrepare(p *printer) bool {
 		} else if _, ok := e.Left.Data.(*js_ast.ENumber); ok {
 			// Negative numbers are printed using a unary operator
 			v.leftLevel = js_ast.LCall
+		} else if inlined, ok := e.Left.Data.(*js_ast.EInlinedEnum); ok {
+			// An inlined TypeScript enum value may be a negative number
+			if _, ok := inlined.Value.Data.(*js_ast.ENumber); ok {
+				v.leftLevel = js_ast.LCall
+			}
 		} else if dot, ok := e.Left.Data.(*js_ast.EDot); ok && dot.OptionalChain == js_ast.OptionalChainNone {
 			// An inlined cross-module TypeScript enum value may be a negative number
 			if value, ok := p.tryToGetImportedEnumValue(dot.Target, dot.Name); ok && value.String == nil {
